@@ -15,30 +15,50 @@ PATH_SEPS = {"os.path.sep", "os.sep", "'/'"}
 ENV_PATHSEPS = {"os.pathsep", "os.path.pathsep"}
 
 
-def classifier_atomise(job: str = "jobName"):
+def classifier_roles(fn: ast.AST) -> dict:
+    """Locals of a classifier by role: (stage, producer name, has-stage-prefix) unpacked from ParseProducerReference(..) or
+    (stage, producer, ..) from ParseDataReferenceFull(..); the reserved-folder collections (built from SpecialFolders or being
+    the top_level_folders / special_folders parameters)."""
+    r = {"job": "jobName", "has_index": {"hasIndex"}, "stage": {"stage_index", "stageIndex"}, "reserved": {"special_folders", "top_level_folders"}}
+    for n in source.walk_own(fn):
+        if isinstance(n, ast.Assign) and isinstance(n.targets[0], ast.Tuple) and isinstance(n.value, ast.Call) \
+                and all(isinstance(e, ast.Name) for e in n.targets[0].elts):
+            names = [e.id for e in n.targets[0].elts]
+            if last_attr(n.value) == "ParseProducerReference" and len(names) == 3:
+                r["stage"].add(names[0]); r["job"] = names[1]; r["has_index"].add(names[2])
+            if last_attr(n.value) == "ParseDataReferenceFull" and len(names) == 4:
+                r["stage"].add(names[0]); r["job"] = names[1]
+    r["reserved"] |= set(match.locals_where(fn, lambda v: "SpecialFolders" in source.src(v)))
+    return r
+
+
+def classifier_atomise(job: str = "jobName", roles: Optional[dict] = None):
+    roles = roles or {"job": job, "has_index": {"hasIndex"}, "stage": {"stage_index", "stageIndex"}, "reserved": {"special_folders", "top_level_folders"}}
+    job = roles["job"]
+
     def atomise(e: ast.AST) -> Optional[Tuple[str, bool]]:
         s = source.src(e)
         cp = match.compare_parts(e)
         if cp:
             l, op, r = cp
             ls, rs = source.src(l), source.src(r)
-            if isinstance(op, (ast.In, ast.NotIn)) and ls == job and ("special_folders" in rs or "top_level_folders" in rs):
+            if isinstance(op, (ast.In, ast.NotIn)) and ls == job and (set(source.names_in(r)) & roles["reserved"]):
                 return ("in_reserved", isinstance(op, ast.In))
             if isinstance(op, (ast.In, ast.NotIn)) and rs == job and ls in PATH_SEPS:
                 return ("has_sep", isinstance(op, ast.In))
-            if ls in ("hasIndex",) and isinstance(r, ast.Constant) and isinstance(r.value, bool):
+            if ls in roles["has_index"] and isinstance(r, ast.Constant) and isinstance(r.value, bool):
                 if isinstance(op, (ast.Is, ast.Eq)):
                     return ("has_index", r.value)
                 if isinstance(op, (ast.IsNot, ast.NotEq)):
                     return ("has_index", not r.value)
-            if ls in ("stage_index", "stageIndex") and isinstance(r, ast.Constant) and r.value is None:
+            if ls in roles["stage"] and isinstance(r, ast.Constant) and r.value is None:
                 if isinstance(op, ast.Is):
                     return ("has_index", False)
                 if isinstance(op, ast.IsNot):
                     return ("has_index", True)
             if ls == "top_level_folders" and isinstance(r, ast.Constant) and r.value is None:
                 return ("tlf_given", isinstance(op, ast.IsNot))
-        if isinstance(e, ast.Name) and e.id == "hasIndex":
+        if isinstance(e, ast.Name) and e.id in roles["has_index"]:
             return ("has_index", True)
         if isinstance(e, ast.Call) and last_attr(e) in ("search", "match") and e.args and source.src(e.args[0]) == job:
             return ("is_var", True)
@@ -106,11 +126,12 @@ def run(ctx) -> None:
     tests = {}
     for fn, name in ((pdf, "ParseDataReferenceFull"), (idc, "is_datareference_to_component")):
         ifs = [n for n in fn.body if isinstance(n, ast.If)]
-        cand = [i for i in ifs if "jobName" in source.src(i.test) and ("hasIndex" in source.src(i.test))]
+        roles = classifier_roles(fn)
+        cand = [i for i in ifs if roles["job"] in source.names_in(i.test) and (set(source.names_in(i.test)) & roles["has_index"])]
         ctx.require(bool(cand), "anchor missing: classification test in %s" % name)
         tests[name] = cand[-1]
         try:
-            tables[name] = boolx.truth_table(cand[-1].test, atoms, classifier_atomise())
+            tables[name] = boolx.truth_table(cand[-1].test, atoms, classifier_atomise(roles=roles))
         except boolx.Unrecognised as e:
             raise AnalysisError("cannot interpret the classifier of %s: %s" % (name, e))
     free = sorted({k for t in tables.values() for (env, _) in t for k in env if k.startswith("?")})
@@ -133,7 +154,8 @@ def run(ctx) -> None:
                "%s: the classification formula differs from the documented one on %s" % (name, bad[0]),
                construct="%s formula" % name)
     # what happens on the not-a-component side
-    ok = any(isinstance(s, ast.Assign) and source.src(s.targets[0]) == "stageIndex" and isinstance(s.value, ast.Constant) and s.value.value is None
+    pdf_roles = classifier_roles(pdf)
+    ok = any(isinstance(s, ast.Assign) and source.src(s.targets[0]) in pdf_roles["stage"] and isinstance(s.value, ast.Constant) and s.value.value is None
              for s in tests["ParseDataReferenceFull"].body)
     ctx.ob("C09.R2-sibling-classifiers", tests["ParseDataReferenceFull"], ok, "ParseDataReferenceFull clears the stage index for non-components" if ok else
            "ParseDataReferenceFull no longer clears the stage index for non-component references", construct="stageIndex = None")
@@ -149,10 +171,15 @@ def run(ctx) -> None:
         ok = bool(var_tests) and match.only_via_edges(cfg, cn, [(n, "F") for n, _ in var_tests])
         ctx.ob("C09.R2-sibling-classifiers", cn.ast, ok, "a variable producer is never expanded" if ok else
                "a reference whose producer is a variable can be expanded into a component reference", construct="expand <- not is_var_reference")
-    dr = match.assigned_value(epc, "direct_reference")
+    epc_roles = classifier_roles(epc)
+    # roles: DIRECT = the boolean local defined from 'top_level_folders is not None and (...)'; REFC = the local initialised
+    # from the force_expand parameter
+    DIRECT = match.role(epc, lambda v: isinstance(v, ast.BoolOp) and "top_level_folders" in source.src(v), "direct_reference")
+    REFC = match.role(epc, lambda v: isinstance(v, ast.Name) and v.id == "force_expand", "references_component")
+    dr = match.assigned_value(epc, DIRECT)
     ctx.require(len(dr) == 1, "anchor missing: direct_reference in expand_potential_component_reference")
     try:
-        t = boolx.truth_table(dr[0], ["tlf_given", "has_index", "in_reserved", "has_sep"], classifier_atomise("producer"))
+        t = boolx.truth_table(dr[0], ["tlf_given", "has_index", "in_reserved", "has_sep"], classifier_atomise(roles=epc_roles))
     except boolx.Unrecognised as e:
         raise AnalysisError("cannot interpret direct_reference: %s" % e)
     bad = [env for env, val in t if not any(k.startswith("?") for k in env)
@@ -162,23 +189,24 @@ def run(ctx) -> None:
            "direct_reference <=> (reserved first segment without stage prefix) or the producer contains a path separator" if not bad and not freed else
            "direct_reference deviates from the documented classification (%s)" % (bad[0] if bad else freed), construct="direct_reference formula")
     # references_component can become True only by force_expand, by 'top_level_folders and not direct_reference', or by a known component
-    sets_true = [n for n in cfg.nodes if n.kind == "stmt" and isinstance(n.ast, ast.Assign) and source.src(n.ast.targets[0]) == "references_component"
+    sets_true = [n for n in cfg.nodes if n.kind == "stmt" and isinstance(n.ast, ast.Assign) and source.src(n.ast.targets[0]) == REFC
                  and isinstance(n.ast.value, ast.Constant) and n.ast.value.value is True]
-    nd = match.test_nodes(cfg, lambda t_: match.polarity(t_, lambda e: isinstance(e, ast.Name) and e.id == "direct_reference"))
+    nd = match.test_nodes(cfg, lambda t_: match.polarity(t_, lambda e: isinstance(e, ast.Name) and e.id == DIRECT))
     kc = match.test_nodes(cfg, lambda t_: "T" if (isinstance(t_, ast.Compare) and isinstance(t_.ops[0], ast.In) and "known_components" in source.src(t_.comparators[0])) else None)
     for s_ in sets_true:
         edges = [(n, match.other(l)) for n, l in nd] + kc
         ok = bool(edges) and match.only_via_edges(cfg, s_, edges)
         ctx.ob("C09.R2-sibling-classifiers", s_.ast, ok, "expansion is decided only by 'not a direct reference' or 'known component'" if ok else
                "a direct (reserved-folder / path) reference can be expanded although it is not a known component")
-    init = match.assigned_value(epc, "references_component")
+    init = match.assigned_value(epc, REFC)
     ok = any(isinstance(v, ast.Name) and v.id == "force_expand" for v in init)
     ctx.ob("C09.R2-sibling-classifiers", epc, ok, "expansion defaults to force_expand" if ok else "references_component no longer starts from force_expand",
            construct="references_component = force_expand", trivial=True)
 
     # ---------------- R3 -------------------------------------------------------------------------------
     for fn, name in ((pdf, "ParseDataReferenceFull"), (idc, "is_datareference_to_component")):
-        vals = match.assigned_value(fn, "special_folders")
+        res_names = match.locals_where(fn, lambda v: "SpecialFolders" in source.src(v))
+        vals = [v for nm in (res_names or ["special_folders"]) for v in match.assigned_value(fn, nm)]
         def addends(e):
             if isinstance(e, ast.BinOp) and isinstance(e.op, ast.Add):
                 return addends(e.left) + addends(e.right)
@@ -186,13 +214,14 @@ def run(ctx) -> None:
         ok = bool(vals) and all(any((dotted(a) or "").endswith("SpecialFolders") for a in addends(v)) for v in vals)
         ctx.ob("C09.R3-reserved-sets", vals[-1] if vals else fn, ok, "%s always reserves FlowIR.SpecialFolders" % name if ok else
                "%s can classify without FlowIR.SpecialFolders in the reserved set" % name)
-    vals = match.assigned_value(pdf, "app_deps")
+    vals = [v for nm in match.locals_where(pdf, lambda v: "application_dependency_to_name" in source.src(v)) for v in match.assigned_value(pdf, nm)]
     ok = any("application_dependency_to_name" in source.src(v) for v in vals)
     ctx.ob("C09.R3-reserved-sets", vals[0] if vals else pdf, ok, "application dependencies are mapped to their folder names" if ok else
            "application dependencies are compared without application_dependency_to_name")
-    tl = match.assigned_value(ecr, "top_level_folders")
-    ok = any("SpecialFolders" in source.src(v) and "app_dep_folders" in source.src(v) for v in tl) and any(
-        "application_dependency_to_name" in source.src(v) for v in match.assigned_value(ecr, "app_dep_folders"))
+    ADF = match.role(ecr, lambda v: "application_dependency_to_name" in source.src(v), "app_dep_folders")
+    tl = [v for nm in (match.locals_where(ecr, lambda v: "SpecialFolders" in source.src(v)) or ["top_level_folders"]) for v in match.assigned_value(ecr, nm)]
+    ok = any("SpecialFolders" in source.src(v) and ADF in source.names_in(v) for v in tl) and any(
+        "application_dependency_to_name" in source.src(v) for v in match.assigned_value(ecr, ADF))
     ctx.ob("C09.R3-reserved-sets", tl[0] if tl else ecr, ok, "expand_component_references reserves top-level folders + application dependencies + special folders" if ok else
            "expand_component_references no longer reserves all of top-level folders, application dependencies and special folders")
 
@@ -250,7 +279,10 @@ def run(ctx) -> None:
 
     # ---------------- R5 -------------------------------------------------------------------------------
     c2 = CFG(ppr)
-    sets_ = [n for n in c2.nodes if n.kind == "stmt" and isinstance(n.ast, ast.Assign) and source.src(n.ast.targets[0]) == "hasIndex"
+    rt = [r.value for r in source.walk_own(ppr) if isinstance(r, ast.Return) and isinstance(r.value, ast.Tuple) and len(r.value.elts) == 3
+          and isinstance(r.value.elts[2], ast.Name)]
+    HASIDX = rt[0].elts[2].id if rt else "hasIndex"
+    sets_ = [n for n in c2.nodes if n.kind == "stmt" and isinstance(n.ast, ast.Assign) and source.src(n.ast.targets[0]) == HASIDX
              and isinstance(n.ast.value, ast.Constant) and n.ast.value.value is True]
     abs_tests = match.test_nodes(c2, lambda t_: "T" if (isinstance(t_, ast.Call) and last_attr(t_) == "startswith" and t_.args
                                                         and isinstance(t_.args[0], ast.Constant) and t_.args[0].value == "/") else None)
